@@ -251,44 +251,36 @@ Record memory := {
 Definition reload (d : disk) : memory :=
   Build_memory [] [] [] false false (dk_height d) (dk_hash d).
 
-(** reads inside a block: write set, then account cache, then disk *)
-Definition rd (w : smap val) (m : memory) (d : disk) (k : N) : option val :=
-  match sget k w with
-  | Some v => Some v
-  | None => match sget k (m_acache m) with
-            | Some v => Some v
-            | None => sget k (dk_state d)
-            end
-  end.
+(** what a read falls back to when the key was not written in this block: the account cache laid
+    over the disk (cache entries win, as in SimpleAccount.GetState) *)
+Definition overlay (cache st : smap val) : smap val :=
+  fold_left (fun acc kv => sset (fst kv) (snd kv) acc) cache st.
 
-(** what a transaction sees *)
+(** node-local state threaded through the transactions of a block *)
 Record view := {
   v_w : smap val;                 (* writes of this block so far *)
-  v_cache : smap svcrec;
-  v_single : bool;
-  v_persist : bool
+  v_cache : smap svcrec;          (* executor serviceCache *)
+  v_single : bool;                (* registered InterchainManager object: ServiceCache field non-nil *)
+  v_persist : bool                (* registered ServiceManager object: Persister set *)
+}.
+
+Record change := {
+  ch_prev : option N; ch_cur : N;
+  ch_src : list N; ch_dst : list N; ch_children : list N; ch_fail_child : bool
 }.
 
 Section Exec.
   Variable cfg : Defects.
   Variable o : oracle.
-  Variable m0 : memory.   (* memory at the start of the block: account cache *)
-  Variable d0 : disk.
-  Variable h : N.         (* height of the block being executed *)
+  Variable base : smap val.   (* account cache over disk at the start of the block *)
+  Variable h : N.             (* height of the block being executed *)
 
-  Definition rdv (v : view) (k : N) : option val := rd (v_w v) m0 d0 k.
-  Definition wr (v : view) (k : N) (x : val) : view := Build_view (sset k x (v_w v)) (v_cache v) (v_single v) (v_persist v).
-  Definition touch (v : view) : view := Build_view (v_w v) (v_cache v) (v_single v) true.
-  (** node-local memory survives the revert of a failed call *)
-  Definition keep_mem (vnew vold : view) : view := Build_view (v_w vold) (v_cache vold) (v_single vnew) (v_persist vnew).
-
-  Definition led_svc (v : view) (s : N) : option svcrec :=
-    match rdv v (K_svc s) with Some (VSvc r) => Some r | _ => None end.
-  (** getServiceByID: executor cache first, then the ledger *)
-  Definition svc_lookup (v : view) (use_cache : bool) (s : N) : option svcrec :=
-    if use_cache then match sget s (v_cache v) with Some r => Some r | None => led_svc v s end
-    else led_svc v s.
-  Definition num (v : view) (k : N) : N := match rdv v k with Some (VNum n) => n | _ => 0 end.
+  (** reads inside a block: the block's write set first *)
+  Definition rdw (w : smap val) (k : N) : option val :=
+    match sget k w with Some x => Some x | None => sget k base end.
+  Definition led_svc (w : smap val) (s : N) : option svcrec :=
+    match rdw w (K_svc s) with Some (VSvc r) => Some r | _ => None end.
+  Definition num (w : smap val) (k : N) : N := match rdw w k with Some (VNum n) => n | _ => 0 end.
 
   (** the order in which a map's keys are visited, and the repaired consumers *)
   Definition visit (site i : N) (l : list N) : list N := o_perm o site h i l.
@@ -296,71 +288,68 @@ Section Exec.
     if leak then visit site i l else isort (visit site i l).
 
   (** ** timeout lists (string level: "" splits into one empty token) *)
-  Definition toks_of (v : view) (hh : N) : option (list tok) :=
-    match rdv v (K_tl hh) with Some (VToks l) => Some l | _ => None end.
+  Definition toks_of (w : smap val) (hh : N) : option (list tok) :=
+    match rdw w (K_tl hh) with Some (VToks l) => Some l | _ => None end.
   Definition tl_norm (l : list tok) : list tok := match l with [] => [TEmpty] | _ => l end.
   Definition is_empty_str (l : list tok) : bool := match l with [TEmpty] => true | _ => false end.
   (** handle.go getTimeoutList *)
-  Definition timeout_list (v : view) (hh : N) : list tok :=
-    match toks_of v hh with
+  Definition timeout_list (w : smap val) (hh : N) : list tok :=
+    match toks_of w hh with
     | None => []
     | Some l => match l with TEmpty :: _ => [] | _ => l end
     end.
   (** TransactionManager.addToTimeoutList (an emptied list counts as absent) *)
-  Definition tm_add_timeout (v : view) (hh : N) (t : tok) : view :=
-    match toks_of v hh with
-    | None => wr v (K_tl hh) (VToks [t])
-    | Some l => wr v (K_tl hh) (VToks (if is_empty_str l then [t] else l ++ [t]))
+  Definition tm_add_timeout (w : smap val) (hh : N) (t : tok) : smap val :=
+    match toks_of w hh with
+    | None => sset (K_tl hh) (VToks [t]) w
+    | Some l => sset (K_tl hh) (VToks (if is_empty_str l then [t] else l ++ [t])) w
     end.
   Definition remove_tok (t : tok) (l : list tok) : list tok := filter (fun x => negb (tok_eqb x t)) l.
-  Definition tm_remove_timeout (v : view) (hh : N) (t : tok) : view :=
-    match toks_of v hh with
-    | None => v
-    | Some l => wr v (K_tl hh) (VToks (tl_norm (remove_tok t l)))
+  Definition tm_remove_timeout (w : smap val) (hh : N) (t : tok) : smap val :=
+    match toks_of w hh with
+    | None => w
+    | Some l => sset (K_tl hh) (VToks (tl_norm (remove_tok t l))) w
     end.
 
   (** ** TransactionManager *)
-  Record change := {
-    ch_prev : option N; ch_cur : N;
-    ch_src : list N; ch_dst : list N; ch_children : list N; ch_fail_child : bool
-  }.
-
   Definition set_all (st : N) (keys : list N) (c : smap N) : smap N :=
     fold_right (fun k acc => sset k st acc) c keys.
+  Definition timeout_height (b : ibtp) : N :=
+    if (ib_timeout b =? 0) || (MAXH - h <=? ib_timeout b) then MAXH else h + ib_timeout b.
 
-  Definition begin_single (v : view) (b : ibtp) (isFailed : bool) : view * change :=
+  Definition begin_single (w : smap val) (b : ibtp) (isFailed : bool) : smap val * change :=
     let st := if isFailed then ST_BEGIN_FAILURE else ST_BEGIN in
-    let hh := if (ib_timeout b =? 0) || (MAXH - h <=? ib_timeout b) then MAXH else h + ib_timeout b in
-    (wr v (K_tx (ib_id b)) (VRec st hh), Build_change None st [] [] [] false).
+    (sset (K_tx (ib_id b)) (VRec st (timeout_height b)) w, Build_change None st [] [] [] false).
 
-  Definition begin_multi (i : N) (v : view) (b : ibtp) (g count : N) (isFailed : bool) : option (view * change) :=
+  Definition begin_multi (i : N) (w : smap val) (b : ibtp) (g count : N) (isFailed : bool) : option (smap val * change) :=
     let id := ib_id b in
-    match rdv v (K_glob g) with
+    match rdw w (K_glob g) with
     | Some (VGlob gs gh gc ch) =>
         match sget id ch with
         | Some _ => None
         | None =>
             if is_final gs then None else
-            let '(v1, gs1, ch1, nsrc, ndst) :=
-              if negb (gs =? ST_BEGIN) then (v, gs, sset id gs ch, [], [])
+            let '(w1, gs1, ch1, nsrc, ndst) :=
+              if negb (gs =? ST_BEGIN) then (w, gs, sset id gs ch, [], [])
               else if isFailed then
                 let ks := visit S_BM0 i (skeys ch) in
                 let nsrc := pick (d_notify_unsorted cfg) S_BM0 i (skeys ch) in
                 let ndst := filter (fun k => match sget k ch with Some 3 => true | _ => false end) nsrc in
                 let ch1 := sset id ST_BEGIN_FAILURE (set_all ST_BEGIN_FAILURE ks ch) in
-                (tm_remove_timeout v gh (TGid g), ST_BEGIN_FAILURE, ch1, nsrc, ndst)
-              else (v, gs, sset id ST_BEGIN ch, [], []) in
-            let v2 := wr (wr v1 (K_glob g) (VGlob gs1 gh gc ch1)) (K_child id) (VNum g) in
+                (tm_remove_timeout w gh (TGid g), ST_BEGIN_FAILURE, ch1, nsrc, ndst)
+              else (w, gs, sset id ST_BEGIN ch, [], []) in
+            let w2 := sset (K_child id) (VNum g) (sset (K_glob g) (VGlob gs1 gh gc ch1) w1) in
             let cur := match sget id ch1 with Some s => s | None => 0 end in
-            Some (v2, Build_change None cur nsrc ndst (visit S_BM1 i (skeys ch1)) false)
+            (* ChildIBTPIDs: map order, sorted since 428094a1; the request path never reads it *)
+            Some (w2, Build_change None cur nsrc ndst (pick (d_notify_unsorted cfg) S_BM1 i (skeys ch1)) false)
         end
     | _ =>
-        let hh := if (ib_timeout b =? 0) || (MAXH - h <=? ib_timeout b) then MAXH else h + ib_timeout b in
+        let hh := timeout_height b in
         let st := if isFailed then ST_BEGIN_FAILURE else ST_BEGIN in
-        let v1 := if isFailed then v else tm_add_timeout v hh (TGid g) in
+        let w1 := if isFailed then w else tm_add_timeout w hh (TGid g) in
         let ch1 := [(id, st)] in
-        let v2 := wr (wr v1 (K_glob g) (VGlob st hh count ch1)) (K_child id) (VNum g) in
-        Some (v2, Build_change None st [] [] (visit S_BM1 i (skeys ch1)) false)
+        let w2 := sset (K_child id) (VNum g) (sset (K_glob g) (VGlob st hh count ch1) w1) in
+        Some (w2, Build_change None st [] [] (pick (d_notify_unsorted cfg) S_BM1 i (skeys ch1)) false)
     end.
 
   (** isMultiTxFinished: every child has status [st] and there are [count] of them *)
@@ -368,27 +357,30 @@ Section Exec.
     forallb (fun k => match sget k ch with Some s => s =? st | None => false end) (visit S_IMF i (skeys ch))
     && (N.of_nat (List.length ch) =? count).
 
-  Definition report (i : N) (v : view) (b : ibtp) : option (view * change) :=
+  Definition report (i : N) (w : smap val) (b : ibtp) : option (smap val * change) :=
     let id := ib_id b in
-    match rdv v (K_tx id) with
+    match rdw w (K_tx id) with
     | Some (VRec st hh) =>
         match fsm_receipt st (ib_typ b) with
-        | Some st' => Some (wr v (K_tx id) (VRec st' hh), Build_change (Some st) st' [] [] [] false)
+        | Some st' => Some (sset (K_tx id) (VRec st' hh) w, Build_change (Some st) st' [] [] [] false)
         | None => None
         end
     | _ =>
-        match rdv v (K_child id) with
+        match rdw w (K_child id) with
         | Some (VNum g) =>
-            match rdv v (K_glob g) with
+            match rdw w (K_glob g) with
             | Some (VGlob gs gh gc ch) =>
                 match sget id ch with
                 | None => None
                 | Some cst =>
+                    (* which children had already succeeded (keyed accumulation over the map) *)
+                    let succeeded : smap bool :=
+                      fold_right (fun k acc => sset k (match sget k ch with Some 3 => true | _ => false end) acc) [] (visit S_R2 i (skeys ch)) in
                     (* changeMultiTxStatus *)
                     let res :=
                       if (gs =? ST_BEGIN) && (ib_typ b =? 2) then
                         let ch1 := sset id ST_FAILURE (set_all ST_BEGIN_FAILURE (visit S_CMS i (skeys ch)) ch) in
-                        Some (tm_remove_timeout v gh (TGid g), ST_BEGIN_FAILURE, ch1)
+                        Some (tm_remove_timeout w gh (TGid g), ST_BEGIN_FAILURE, ch1)
                       else match fsm_receipt cst (ib_typ b) with
                            | None => None
                            | Some cst' =>
@@ -396,21 +388,18 @@ Section Exec.
                                if multi_finished i cst' gc ch1 then
                                  match fsm_receipt gs (ib_typ b) with
                                  | None => None
-                                 | Some gs' => Some (tm_remove_timeout v gh (TGid g), gs', ch1)
+                                 | Some gs' => Some (tm_remove_timeout w gh (TGid g), gs', ch1)
                                  end
-                               else Some (v, gs, ch1)
+                               else Some (w, gs, ch1)
                            end in
-                    (* which children had already succeeded (keyed accumulation over the map) *)
-                    let succeeded : smap bool :=
-                      fold_right (fun k acc => sset k (match sget k ch with Some 3 => true | _ => false end) acc) [] (visit S_R2 i (skeys ch)) in
                     match res with
                     | None => None
-                    | Some (v1, gs1, ch1) =>
+                    | Some (w1, gs1, ch1) =>
                         let others := filter (fun k => negb (k =? id)) (pick (d_notify_unsorted cfg) S_R0 i (skeys ch1)) in
                         let begin_fail := (gs =? ST_BEGIN) && (gs1 =? ST_BEGIN_FAILURE) in
                         let ndst := if begin_fail then filter (fun k => match sget k succeeded with Some true => true | _ => false end) others else [] in
                         let children := isort (visit S_R1 i (skeys ch1)) in
-                        Some (wr v1 (K_glob g) (VGlob gs1 gh gc ch1),
+                        Some (sset (K_glob g) (VGlob gs1 gh gc ch1) w1,
                               Build_change (Some gs) gs1 others ndst children begin_fail)
                     end
                 end
@@ -421,104 +410,113 @@ Section Exec.
     end.
 
   (** ** InterchainManager *)
-  Definition multi_of (v : view) (hh : N) : smap (list N) :=
-    match rdv v (K_multi hh) with Some (VMulti m) => m | _ => [] end.
+  Definition multi_of (w : smap val) (hh : N) : smap (list N) :=
+    match rdw w (K_multi hh) with Some (VMulti m) => m | _ => [] end.
   Definition app_at (c : N) (ids : list N) (m : smap (list N)) : smap (list N) :=
     sset c (match sget c m with Some l => l ++ ids | None => ids end) m.
   (** addToMultiTxNotifyMap *)
-  Definition add_multi (v : view) (hh : N) (ids : list N) (toSrc : bool) : view :=
+  Definition add_multi (w : smap val) (hh : N) (ids : list N) (toSrc : bool) : smap val :=
     match ids with
-    | [] => v
+    | [] => w
     | first :: _ =>
-        let m := multi_of v hh in
+        let m := multi_of w hh in
         let m' := if toSrc then app_at (chain_of (id_src first)) ids m
                   else fold_left (fun acc id => app_at (chain_of (id_dst (if d_dst_key_first cfg then first else id))) [id] acc) ids m in
-        wr v (K_multi hh) (VMulti m')
+        sset (K_multi hh) (VMulti m') w
     end.
 
   (** recordService -> ServiceManager.RecordInvokeService: posts the service record as a SERVICE event *)
-  Definition record_service (v : view) (s : N) : list (N * svcrec) :=
-    match led_svc v s with Some r => [(s, r)] | None => [] end.
-  (** a getServiceByID that misses the cache cross-invokes ServiceManager.GetServiceInfo (which sets its Persister) *)
-  Definition lookup_touch (v : view) (use_cache : bool) (s : N) : bool :=
-    if use_cache then match sget s (v_cache v) with Some _ => false | None => true end else true.
-  Definition touch_if (b : bool) (v : view) : view := if b then touch v else v.
+  Definition record_service (w : smap val) (s : N) : list (N * svcrec) :=
+    match led_svc w s with Some r => [(s, r)] | None => [] end.
 
-  (** HandleIBTP.  [cur] is the contract's notion of the current height (block height on the
-      IBTP path, height - 1 for a plain BVM call); [use_cache] = executor cache attached. *)
-  Definition handle_ibtp (i : N) (v : view) (b : ibtp) (cur : N) (use_cache : bool) : view * receipt :=
+  (** getServiceByID: executor cache first, then the ledger *)
+  Definition svc_lookup (cache : smap svcrec) (w : smap val) (s : N) : option svcrec :=
+    match sget s cache with Some r => Some r | None => led_svc w s end.
+
+  (** HandleIBTP on the write set [w] with the service cache [cache] (empty for the registered
+      object's own cache).  [cur] is the contract's notion of the current height (block height on
+      the IBTP path, height - 1 for a plain BVM call). *)
+  Definition handle_ibtp (i : N) (cache : smap svcrec) (w : smap val) (b : ibtp) (cur : N) : smap val * receipt * bool :=
     let src := ib_src b in let dst := ib_dst b in
     let isReq := ib_typ b =? 0 in
-    if negb (isReq || (ib_typ b =? 1) || (ib_typ b =? 2) || (ib_typ b =? 3)) then (v, failed (RErr 7))
+    if negb (isReq || (ib_typ b =? 1) || (ib_typ b =? 2) || (ib_typ b =? 3)) then (w, failed (RErr 7), false)
     else
     (* checkIBTP *)
-    let vs := touch_if (lookup_touch v use_cache src) v in
-    let chk : (view * bool * bool) + (view * retc) :=   (* inl (view, isBatch, targetFail) | inr error *)
+    let chk : (bool * bool) + retc :=   (* inl (isBatch, targetFail) | inr error *)
       if isReq then
-        match svc_lookup v use_cache src with
+        match svc_lookup cache w src with
         | Some r =>
-            if negb (sv_avail r) then inr (vs, RErr 2)
+            if negb (sv_avail r) then inr (RErr 2)
             else
-              let vd := touch_if (lookup_touch v use_cache dst) vs in
               let '(isBatch, tfail) :=
-                match svc_lookup v use_cache dst with
+                match svc_lookup cache w dst with
                 | Some rd_ => if sv_avail rd_ then (negb (sv_ordered rd_), false) else (false, true)
                 | None => (false, true)
                 end in
-              if isBatch then inl (vd, true, tfail)
-              else let exp := num v (K_ic src dst) + 1 in
-                   if ib_idx b <? exp then inr (vd, RErr 3) else if exp <? ib_idx b then inr (vd, RErr 4) else inl (vd, false, tfail)
-        | None => inr (vs, RErr 2)
+              if isBatch then inl (true, tfail)
+              else let exp := num w (K_ic src dst) + 1 in
+                   if ib_idx b <? exp then inr (RErr 3) else if exp <? ib_idx b then inr (RErr 4) else inl (false, tfail)
+        | None => inr (RErr 2)
         end
       else
-        match svc_lookup v use_cache src with
-        | None => inr (vs, RNilPtr)          (* getServiceByID returns nil and the code reads srcService.Ordered *)
+        match svc_lookup cache w src with
+        | None => inr RNilPtr          (* getServiceByID returns nil and the code reads srcService.Ordered *)
         | Some r =>
-            let exp := num v (K_rc src dst) + 1 in
-            if ib_idx b <? exp then inr (vs, RErr 3) else if exp <? ib_idx b then inr (vs, RErr 4) else inl (vs, negb (sv_ordered r), false)
+            let exp := num w (K_rc src dst) + 1 in
+            if ib_idx b <? exp then inr (RErr 3) else if exp <? ib_idx b then inr (RErr 4) else inl (negb (sv_ordered r), false)
         end in
     match chk with
-    | inr (ve, e) => (ve, failed e)
-    | inl (v0, isBatch, tfail) =>
-        let bt : option (view * change) :=
+    | inr e => (w, failed e, false)
+    | inl (isBatch, tfail) =>
+        let bt : option (smap val * change) :=
           if isReq then
             match ib_group b with
-            | None => Some (begin_single v0 b tfail)
-            | Some (g, count) => begin_multi i v0 b g count tfail
+            | None => Some (begin_single w b tfail)
+            | Some (g, count) => begin_multi i w b g count tfail
             end
-          else report i v0 b in
+          else report i w b in
         match bt with
-        | None => (v0, failed (RErr (if isReq then 6 else 5)))
-        | Some (v1, ch) =>
+        | None => (w, failed (RErr (if isReq then 6 else 5)), false)
+        | Some (w1, ch) =>
             (* notifySrcDst *)
             let '(nsrc, ndst) := notify_flags (ch_prev ch) (ch_cur ch) in
-            let w := (isBatch, i) in
+            let wp := (isBatch, i) in
             let ev0 : smap (bool * N) := [] in
-            let '(ev1, v2) := if nsrc then (sset (chain_of src) w ev0, add_multi v1 cur (ch_src ch) true) else (ev0, v1) in
-            let '(ev2, v3) := if ndst then ((if ch_fail_child ch then ev1 else sset (chain_of dst) w ev1), add_multi v2 cur (ch_dst ch) false) else (ev1, v2) in
+            let '(ev1, w2) := if nsrc then (sset (chain_of src) wp ev0, add_multi w1 cur (ch_src ch) true) else (ev0, w1) in
+            let '(ev2, w3) := if ndst then ((if ch_fail_child ch then ev1 else sset (chain_of dst) wp ev1), add_multi w2 cur (ch_dst ch) false) else (ev1, w2) in
             (* ProcessIBTP *)
             if isReq then
-              let v4 := wr v3 (K_ic src dst) (VNum (num v3 (K_ic src dst) + 1)) in
+              let w4 := sset (K_ic src dst) (VNum (num w3 (K_ic src dst) + 1)) w3 in
               let ret := if isBatch then RBatch else if tfail then RBeginFailure else RNone in
-              (v4, Build_receipt true tfail ret (Some ev2) [])
+              (w4, Build_receipt true tfail ret (Some ev2) [], false)
             else
-              let '(v4, sev) :=
+              let '(w4, sev) :=
                 if is_final (ch_cur ch) then
                   match ch_children ch with
-                  | [] => (touch (wr v3 (K_rc src dst) (VNum (ib_idx b))), record_service v3 dst)
+                  | [] => (sset (K_rc src dst) (VNum (ib_idx b)) w3, record_service w3 dst)
                   | cs => fold_left (fun acc c =>
-                                       let '(va, ea) := acc in
-                                       (touch (wr va (K_rc (id_src c) (id_dst c)) (VNum (id_idx c))), ea ++ record_service va (id_dst c)))
-                                    cs (v3, [])
+                                       let '(wa, ea) := acc in
+                                       (sset (K_rc (id_src c) (id_dst c)) (VNum (id_idx c)) wa, ea ++ record_service wa (id_dst c)))
+                                    cs (w3, [])
                   end
-                else (v3, []) in
-              (v4, Build_receipt true false (if isBatch then RBatch else RNone) (Some ev2) sev)
+                else (w3, []) in
+              (w4, Build_receipt true false (if isBatch then RBatch else RNone) (Some ev2) sev, is_final (ch_cur ch))
         end
     end.
 
+  (** does HandleIBTP run a ServiceManager method (and so leave its Persister set)?  A
+      getServiceByID that misses the cache cross-invokes GetServiceInfo; a final receipt records
+      the invocation ([recorded]). *)
+  Definition ibtp_touch (cache : smap svcrec) (b : ibtp) (recorded : bool) : bool :=
+    let miss s := match sget s cache with Some _ => false | None => true end in
+    if negb ((ib_typ b =? 0) || (ib_typ b =? 1) || (ib_typ b =? 2) || (ib_typ b =? 3)) then false
+    else miss (ib_src b)
+         || ((ib_typ b =? 0) && match sget (ib_src b) cache with Some r0 => sv_avail r0 && miss (ib_dst b) | None => false end)
+         || recorded.
+
   (** ** one transaction (handle.go applyTx): receipt, then harvesting of its events *)
-  Definition cache_store (v : view) (evs : list (N * svcrec)) : view :=
-    Build_view (v_w v) (fold_left (fun c e => sset (fst e) (snd e) c) evs (v_cache v)) (v_single v) (v_persist v).
+  Definition cache_store (c : smap svcrec) (evs : list (N * svcrec)) : smap svcrec :=
+    fold_left (fun c e => sset (fst e) (snd e) c) evs c.
 
   Definition exec_tx (i : N) (invalid : bool) (v : view) (t : tx) : view * receipt :=
     if invalid then (v, failed (RErr 1))
@@ -527,10 +525,10 @@ Section Exec.
       match t with
       | TOpaque ok => (v, Build_receipt ok false (if ok then RNone else RErr 9) None [])
       | TGov ok tch evs =>
-          let v' := if ok then fold_left (fun a e => wr a (K_svc (fst e)) (VSvc (snd e))) evs v else v in
-          (touch_if tch v', Build_receipt ok false (if ok then RNone else RErr 9) None evs)
+          let w' := if ok then fold_left (fun a e => sset (K_svc (fst e)) (VSvc (snd e)) a) evs (v_w v) else v_w v in
+          (Build_view w' (v_cache v) (v_single v) (v_persist v || tch), Build_receipt ok false (if ok then RNone else RErr 9) None evs)
       | TPerm site ids =>
-          let vt := if site =? S_PERM then touch v else v in
+          let vt := Build_view (v_w v) (v_cache v) (v_single v) (v_persist v || (site =? S_PERM)) in
           match pick (d_first_error_order cfg) site i ids with
           | [] => (vt, Build_receipt true false RNone None [])
           | first :: _ => (vt, failed (RPerm first))
@@ -539,18 +537,23 @@ Section Exec.
           (* fresh process: nil Persister -> nil pointer panic; otherwise the method runs against the
              previous call's stub and the reflective call panics on the non-Response result *)
           (v, failed (if d_stale_persister cfg then (if v_persist v then RIfaceConv else RNilPtr) else RErr 8))
-      | TIbtp valid b => if valid then handle_ibtp i v b h true else (v, failed (RErr 1))
+      | TIbtp valid b =>
+          if valid then
+            let '(w', r, rec) := handle_ibtp i (v_cache v) (v_w v) b h in
+            (Build_view w' (v_cache v) (v_single v) (v_persist v || ibtp_touch (v_cache v) b rec), r)
+          else (v, failed (RErr 1))
       | TInitCache =>
-          (* no *Response result: the reflective call panics after the method ran *)
+          (* no *Response result: the reflective call panics after the method ran (before b7f5ec6f) *)
           (Build_view (v_w v) (v_cache v) (if d_singleton_mem cfg then true else v_single v) (v_persist v), failed (RErr 9))
       | THandleData b =>
           if d_singleton_mem cfg && v_single v then
-            let '(v', r) := handle_ibtp i v b (h - 1) false in
-            if rc_ok r then (v', r) else (keep_mem v' v, r)       (* a failed BVM call is reverted *)
+            let '(w', r, rec) := handle_ibtp i [] (v_w v) b (h - 1) in
+            (* a failed BVM call is reverted; node-local memory is not *)
+            (Build_view (if rc_ok r then w' else v_w v) (v_cache v) (v_single v) (v_persist v || ibtp_touch [] b rec), r)
           else (v, failed RNilPtr)   (* nil ServiceCache field: the call dies on it (in the repaired code always) *)
       end in
-    let v2 := if rc_ok r || d_cache_failed_events cfg then cache_store v1 (rc_svc_events r) else v1 in
-    (v2, r).
+    let c2 := if rc_ok r || d_cache_failed_events cfg then cache_store (v_cache v1) (rc_svc_events r) else v_cache v1 in
+    (Build_view (v_w v1) c2 (v_single v1) (v_persist v1), r).
 
   Fixpoint exec_txs (i : N) (inv : smap unit) (v : view) (ts : list tx) : view * list receipt :=
     match ts with
@@ -562,15 +565,15 @@ Section Exec.
     end.
 
   (** interchain counter: per chain, (tx index, valid, isBatch) in transaction order *)
+  Definition counter_step (m : smap (bool * N)) (k : N) (acc : smap (list (N * bool * bool))) : smap (list (N * bool * bool)) :=
+    match sget k m with
+    | Some (isB, idx) => sset k (match sget k acc with Some l => l ++ [(idx, true, isB)] | None => [(idx, true, isB)] end) acc
+    | None => acc
+    end.
   Definition add_counter (i : N) (r : receipt) (c : smap (list (N * bool * bool))) : smap (list (N * bool * bool)) :=
     match rc_interchain r with
     | None => c
-    | Some m =>
-        fold_right (fun k acc =>
-                      match sget k m with
-                      | Some (isB, idx) => sset k (match sget k acc with Some l => l ++ [(idx, true, isB)] | None => [(idx, true, isB)] end) acc
-                      | None => acc
-                      end) c (visit S_AT0 i (skeys m))
+    | Some m => fold_right (counter_step m) c (visit S_AT0 i (skeys m))
     end.
   Fixpoint counters (i : N) (rs : list receipt) (c : smap (list (N * bool * bool))) : smap (list (N * bool * bool)) :=
     match rs with
@@ -580,52 +583,52 @@ Section Exec.
 
   (** ** post-processing of the block (handle.go processExecuteEvent) *)
   (** setTimeoutList: collects per-height additions/removals in transaction order, then applies them *)
-  Definition stl_collect (v : view) (ts : list tx) (rs : list receipt) : smap (list tok) * smap (list tok) :=
+  Definition stl_collect (w : smap val) (ts : list tx) (rs : list receipt) : smap (list tok) * smap (list tok) :=
     fold_left (fun acc tr =>
                  let '(adds, rems) := acc in
                  match tr with
                  | (TIbtp true b, r) =>
-                     match ib_group b with
-                     | Some _ => acc
-                     | None =>
-                         if negb (rc_ok r) || match rc_ret r with RBatch => true | _ => false end || rc_begin_failure r then acc
-                         else if ib_typ b =? 0 then
+                     if negb (rc_ok r) || match rc_ret r with RBatch => true | _ => false end || rc_begin_failure r then acc
+                     else if ib_typ b =? 0 then
+                       match ib_group b with
+                       | Some _ => acc
+                       | None =>
                            if (ib_timeout b =? 0) || (MAXH - h <=? ib_timeout b) then acc
                            else let hh := h + ib_timeout b in
                                 (sset hh (match sget hh adds with Some l => l ++ [TId (ib_id b)] | None => [TId (ib_id b)] end) adds, rems)
-                         else match rdv v (K_tx (ib_id b)) with
-                              | Some (VRec st hh) =>
-                                  (adds, sset hh (match sget hh rems with Some l => l ++ [TId (ib_id b)] | None => [TId (ib_id b)] end) rems)
-                              | _ => acc
-                              end
-                     end
+                       end
+                     else match rdw w (K_tx (ib_id b)) with
+                          | Some (VRec st hh) =>
+                              (adds, sset hh (match sget hh rems with Some l => l ++ [TId (ib_id b)] | None => [TId (ib_id b)] end) rems)
+                          | _ => acc
+                          end
                  | _ => acc
                  end) (combine ts rs) ([], []).
 
-  Definition stl_add (adds : smap (list tok)) (hh : N) (v : view) : view :=
+  Definition stl_add (adds : smap (list tok)) (hh : N) (w : smap val) : smap val :=
     match sget hh adds with
-    | None => v
+    | None => w
     | Some ids =>
-        match toks_of v hh with
-        | None => wr v (K_tl hh) (VToks ids)
-        | Some l => wr v (K_tl hh) (VToks (if is_empty_str l then ids else l ++ ids))
+        match toks_of w hh with
+        | None => sset (K_tl hh) (VToks ids) w
+        | Some l => sset (K_tl hh) (VToks (if is_empty_str l then ids else l ++ ids)) w
         end
     end.
-  Definition stl_remove (rems : smap (list tok)) (hh : N) (v : view) : view :=
+  Definition stl_remove (rems : smap (list tok)) (hh : N) (w : smap val) : smap val :=
     match sget hh rems with
-    | None => v
+    | None => w
     | Some ids =>
-        let cur := match toks_of v hh with Some l => l | None => [TEmpty] end in
-        wr v (K_tl hh) (VToks (tl_norm (fold_left (fun l t => remove_tok t l) ids cur)))
+        let cur := match toks_of w hh with Some l => l | None => [TEmpty] end in
+        sset (K_tl hh) (VToks (tl_norm (fold_left (fun l t => remove_tok t l) ids cur))) w
     end.
-  Definition set_timeout_list (v : view) (ts : list tx) (rs : list receipt) : view :=
-    let '(adds, rems) := stl_collect v ts rs in
-    let v1 := fold_right (stl_add adds) v (visit S_STL0 0 (skeys adds)) in
-    fold_right (stl_remove rems) v1 (visit S_STL1 0 (skeys rems)).
+  Definition set_timeout_list (w : smap val) (ts : list tx) (rs : list receipt) : smap val :=
+    let '(adds, rems) := stl_collect w ts rs in
+    let w1 := fold_right (stl_add adds) w (visit S_STL0 0 (skeys adds)) in
+    fold_right (stl_remove rems) w1 (visit S_STL1 0 (skeys rems)).
 
   (** getTimeoutIBTPsMap *)
-  Definition tim_children (j : N) (g : N) (v : view) (m : smap (list N)) : smap (list N) :=
-    match rdv v (K_glob g) with
+  Definition tim_children (j : N) (g : N) (w : smap val) (m : smap (list N)) : smap (list N) :=
+    match rdw w (K_glob g) with
     | Some (VGlob _ _ _ ch) =>
         fold_left (fun acc id =>
                      let acc1 := app_at (chain_of (id_src id)) [id] acc in
@@ -636,53 +639,54 @@ Section Exec.
                   (pick (d_timeout_child_order cfg) S_TIM0 j (skeys ch)) m
     | _ => m
     end.
-  Fixpoint timeout_map (j : N) (v : view) (l : list tok) (m : smap (list N)) : smap (list N) :=
+  Fixpoint timeout_map (j : N) (w : smap val) (l : list tok) (m : smap (list N)) : smap (list N) :=
     match l with
     | [] => m
-    | TGid g :: rest => timeout_map (j + 1) v rest (tim_children j g v m)
-    | TId id :: rest => timeout_map (j + 1) v rest (app_at (chain_of (id_src id)) [id] m)
-    | TEmpty :: rest => timeout_map (j + 1) v rest m
+    | TGid g :: rest => timeout_map (j + 1) w rest (tim_children j g w m)
+    | TId id :: rest => timeout_map (j + 1) w rest (app_at (chain_of (id_src id)) [id] m)
+    | TEmpty :: rest => timeout_map (j + 1) w rest m
     end.
 
-  (** timeoutCounter (keyed copy) and TimeoutL2Roots (appended, then sorted) *)
+  (** timeoutCounter / multiTxCounter / counter: keyed copies of a map *)
+  Definition copy_step {A} (m : smap A) (k : N) (acc : smap A) : smap A :=
+    match sget k m with Some x => sset k x acc | None => acc end.
   Definition keyed_copy {A} (site : N) (m : smap A) : smap A :=
-    fold_right (fun k acc => match sget k m with Some x => sset k x acc | None => acc end) [] (visit site 0 (skeys m)).
+    fold_right (copy_step m) [] (visit site 0 (skeys m)).
+  (** TimeoutL2Roots: appended in map order, then sorted *)
   Definition l2_roots (m : smap (list N)) : list (list N) :=
     (* a root is a function of the list; the code sorts the roots by hash value, the model by key:
        both are canonical functions of the multiset of roots *)
     map (fun k => match sget k m with Some l => l | None => [] end) (isort (visit S_PE0 1 (skeys m))).
 
   (** setTimeoutRollback *)
-  Definition timeout_rollback (v : view) (l : list tok) : view :=
-    fold_left (fun a t =>
-                 match t with
-                 | TGid g => match rdv a (K_glob g) with
-                             | Some (VGlob _ gh gc ch) =>
-                                 wr a (K_glob g) (VGlob ST_BEGIN_ROLLBACK gh gc (set_all ST_BEGIN_ROLLBACK (visit S_SG0 g (skeys ch)) ch))
-                             | _ => a
-                             end
-                 | TId id => wr a (K_tx id) (VRec ST_BEGIN_ROLLBACK h)
-                 | TEmpty => a
-                 end) l v.
+  Definition rollback_step (a : smap val) (t : tok) : smap val :=
+    match t with
+    | TGid g => match rdw a (K_glob g) with
+                | Some (VGlob _ gh gc ch) =>
+                    sset (K_glob g) (VGlob ST_BEGIN_ROLLBACK gh gc (set_all ST_BEGIN_ROLLBACK (visit S_SG0 g (skeys ch)) ch)) a
+                | _ => a
+                end
+    | TId id => sset (K_tx id) (VRec ST_BEGIN_ROLLBACK h) a
+    | TEmpty => a
+    end.
+  Definition timeout_rollback (w : smap val) (l : list tok) : smap val := fold_left rollback_step l w.
 
   (** FlushDirtyData: accounts visited in map order (journals), addresses sorted for the hash;
       per account the dirty keys are visited in sync.Map order and sorted *)
-  Definition changed (w : smap val) : smap val := w.
   Definition acct_entries (a : N) (w : smap val) : list (N * val) :=
     let ks := filter (fun k => acct_of k =? a) (skeys w) in
     fold_right (fun k acc => match sget k w with Some x => (k, x) :: acc | None => acc end) [] (isort (visit S_FL1 a ks)).
   Definition flush (w : smap val) : list N * list (N * list (N * val)) :=
     let accts := visit S_FL0 0 (isort (dedup (map acct_of (skeys w)))) in
     (accts, map (fun a => (a, acct_entries a w)) (isort accts)).
-  (** Commit: batch of puts, one per dirty key; keys are distinct so the order is immaterial *)
+  (** Commit (and AccountCache.add): one put per dirty key; keys are distinct so the order is immaterial *)
   Definition commit (w : smap val) (st : smap val) : smap val :=
-    fold_right (fun k acc => match sget k w with Some x => sset k x acc | None => acc end) st (visit S_CM0 0 (skeys w)).
+    fold_right (copy_step w) st (visit S_CM0 0 (skeys w)).
 End Exec.
 
 (* ------------------------------------------------------------------------------------- *)
 (** * Blocks and results *)
 Record block := {
-  b_seed : list (N * val);     (* state written by the harness right before the block (seeded appchains/services) *)
   b_txs : list tx;
   b_invalid : list N           (* indices whose signature / proof check fails (before ordering by the scheduler) *)
 }.
@@ -703,31 +707,41 @@ Record result := {
 Definition invalid_map (o : oracle) (h : N) (l : list N) : smap unit :=
   fold_right (fun i acc => sset i tt acc) [] (o_sched o h l).
 
-Definition exec_block (cfg : Defects) (o : oracle) (m : memory) (d : disk) (b : block) : memory * disk * result :=
+(** one block on memory [m] over the state db [st] with journal chain [root]: new memory, new state
+    db, new journal chain, the journal's account order, and the block result *)
+Definition block_core (cfg : Defects) (o : oracle) (m : memory) (st : smap val)
+           (root : list (list (N * list (N * val)))) (b : block)
+  : memory * smap val * list (list (N * list (N * val))) * list N * result :=
   let h := m_height m + 1 in
   let _t0 := o_clock o h 0 in                                  (* metrics only *)
   let inv := invalid_map o h (b_invalid b) in
-  let w0 := fold_left (fun w kv => sset (fst kv) (snd kv) w) (b_seed b) (m_pending m) in
+  let w0 := m_pending m in
+  let base := overlay (m_acache m) st in
   let v0 := Build_view w0 (m_svc_cache m) (m_singleton m) (m_persister m) in
-  let '(v1, rs) := exec_txs cfg o m d h 0 inv v0 (b_txs b) in
-  let v2 := set_timeout_list o m d h v1 (b_txs b) rs in
-  let tmap := timeout_map cfg o m d h 0 v2 (timeout_list m d v2 h) [] in
+  let '(v1, rs) := exec_txs cfg o base h 0 inv v0 (b_txs b) in
+  let w2 := set_timeout_list o base h (v_w v1) (b_txs b) rs in
+  let tmap := timeout_map cfg o base h 0 w2 (timeout_list base w2 h) [] in
   let tcounter := keyed_copy o h S_PE0 tmap in
   let l2 := l2_roots o h tmap in
-  let mcounter := keyed_copy o h S_PE1 (multi_of m d v2 h) in
-  let v3 := timeout_rollback o m d h v2 (timeout_list m d v2 h) in
-  let w := v_w v3 in
+  let mcounter := keyed_copy o h S_PE1 (multi_of base w2 h) in
+  let w := timeout_rollback o base h w2 (timeout_list base w2 h) in
   let '(accts, dirty) := flush o h w in
-  let root := dirty :: dk_root d in
-  let hash := HBlock h (m_hash m) root (b_txs b) rs in
+  let root' := dirty :: root in
+  let hash := HBlock h (m_hash m) root' (b_txs b) rs in
   let counter := keyed_copy o h S_PE2 (counters o h 0 rs []) in
-  let st' := commit o h w (dk_state d) in
-  let d' := Build_disk st' h hash root (accts :: dk_journals d) (dk_genesis_ts d) in
-  let m' := Build_memory [] (commit o h w (m_acache m)) (v_cache v3) (v_single v3) (v_persist v3) h hash in
-  (m', d', Build_result h hash root (b_txs b) rs rs counter tcounter l2 mcounter).
+  let st' := commit o h w st in
+  let m' := Build_memory [] (commit o h w (m_acache m)) (v_cache v1) (v_single v1) (v_persist v1) h hash in
+  (m', st', root', accts, Build_result h hash root' (b_txs b) rs rs counter tcounter l2 mcounter).
 
-(** genesis: the configuration is the initial contract state [g]; the name-service records are
-    either part of block 1 (repaired) or written after its flush (faithful) *)
+Definition exec_block (cfg : Defects) (o : oracle) (m : memory) (d : disk) (b : block) : memory * disk * result :=
+  let '(m', st', root', accts, r) := block_core cfg o m (dk_state d) (dk_root d) b in
+  (m', Build_disk st' (r_height r) (r_block_hash r) root' (accts :: dk_journals d) (dk_genesis_ts d), r).
+
+(** genesis: the configuration is the initial contract state [g] (for the correspondence runs:
+    the appchain/service records the harness seeds; the harness writes them right after genesis,
+    after the first restart point, so that they are never lost -- in the model they are part of
+    block 1); the name-service records are either part of block 1 (repaired) or written after its
+    flush (faithful) *)
 Definition bns_data : list (N * val) := [(K_bns 1, VNum 1); (K_bns 2, VNum 1); (K_bns 3, VNum 1)].
 Definition genesis (cfg : Defects) (o : oracle) (g : list (N * val)) : memory * disk * result :=
   let w0 := fold_left (fun w kv => sset (fst kv) (snd kv) w) g [] in
